@@ -58,7 +58,13 @@ fn run_blocking(c: &UdpCase, mode: &Mode) -> Observed {
             let _ = peer.send(&bytes).map_err(|e| format!("peer send: {e}"))?;
             for _ in d {
                 let r = guard(|| framed.read()).map_err(|p| format!("panic: {p}"))?;
-                o.results.push(crate::transport::render(&r));
+                let s = crate::transport::render(&r);
+                // a transport-level error (incl. the 2 s timeout) means data was lost: the rest of the session would only wait
+                let lost = s.starts_with("Err(transient") || s.starts_with("Err(framing") || s.starts_with("Err(Disconnected") || s.starts_with("Err(other");
+                o.results.push(s);
+                if lost {
+                    return Ok(());
+                }
             }
         }
         // keep-alive replies: exactly one datagram per delivered keep-alive
@@ -110,7 +116,14 @@ fn run_tokio(c: &UdpCase, mode: &Mode) -> Observed {
                     let _ = peer.send(&bytes).await.map_err(|e| format!("peer send: {e}"))?;
                     for _ in d {
                         match tokio::time::timeout(READ_TIMEOUT, framed.read()).await {
-                            Ok(r) => o.results.push(crate::transport::render(&r)),
+                            Ok(r) => {
+                                let s = crate::transport::render(&r);
+                                let lost = s.starts_with("Err(transient") || s.starts_with("Err(framing") || s.starts_with("Err(Disconnected") || s.starts_with("Err(other");
+                                o.results.push(s);
+                                if lost {
+                                    return Ok(());
+                                }
+                            },
                             Err(_) => {
                                 o.results.push("<nothing delivered within 2 s>".into());
                                 return Ok(());
